@@ -447,13 +447,16 @@ struct MonC06 : Monitor {
                 w.note("c06_wellformed_emit");
                 if (declared == maxfit) w.note("c06_max_emit");
                 size_t expect = declared + 1;
-                if (!d.internal_fault && core.size() != expect)
+                // a platform that cannot tell the MTU is a platform fault: the Emit may be executed partially (C18), what is sent stays checked
+                bool faulted = d.internal_fault || (gf & G_MTU);
+                if (faulted) w.note("c06_emit_under_platform_fault");
+                if (!faulted && core.size() != expect)
                     w.violate("C06", "emit-frame-count", fmt("Emit with %zu descriptors produced %zu frame(s), expected %zu Probe/Train + 1 ACK", declared, core.size(), declared));
-                if (d.internal_fault && core.size() > expect) w.violate("C06", "emit-frame-count", "more frames than descriptors + ACK");
+                if (faulted && core.size() > expect) w.violate("C06", "emit-frame-count", "more frames than descriptors + ACK");
                 uint64_t pause_sum = 0;
                 bool macfail = (gf & G_MAC) != 0;
                 // under an injected platform fault single frames may be missing anywhere; what is sent is then judged by C18 against the fault-free run
-                for (size_t i = 0; !d.internal_fault && i < core.size() && i < expect; i++) {
+                for (size_t i = 0; !faulted && i < core.size() && i < expect; i++) {
                     const Bytes &f = core[i]->data;
                     if (f.size() < 32) continue;
                     if (core[i]->refused) w.note("c06_refused_send");
